@@ -135,6 +135,16 @@ def compare_hist_with_model(ctx, batch):
                 break
 
 
+
+def regenerate(ctx):
+    """translator: the live pyparsing grammar object graph -> Mitx/Generated/Grammar.lean (obligation grammar_matches)"""
+    from translate import grammar as TG
+    from common import LEAN
+    n = TG.regenerate(LEAN)
+    ctx.notes.append('translator: grammar object graph, %d elements' % n)
+    return 1
+
+
 def run(ctx):
     from mitxgraders.helpers.calc.expressions import MathParser, PARSER, evaluator
     from mitxgraders.exceptions import MITxError
